@@ -824,6 +824,7 @@ class Datagram:
 class Sim:
     echo_installed_sa_in_expire = True
     def __init__(self, seed=0, t0=1_700_000_000.0):
+        self.runaway = 0            # set by walk.explore when a lossless path did not come to rest within max_depth steps
         install()
         W.sim = self
         W.clock.t = t0
